@@ -48,12 +48,12 @@ CHECKS = {
                   "model of Geometry.Decode / Feature / FeatureCollection unmarshalling incl. encoding/json's typed-decoding rules + correspondence with Go on round trips and "
                   "on mutated / arbitrary documents, judged by an independent RFC 7946 reader and an explicit carve-out table",
         text="C07_decode_total, C07_unmarshal_total, C07_feature_total, C07_feature_collection_total: for every JSON value the modelled decoders return a value or an error; "
-             "C07_point/linestring/polygon/multilinestring/multipoint_roundtrip: for every layout but XYM and any number of positions, decoding the arrays the encoder writes "
+             "C07_point/linestring/polygon/multilinestring/multipoint/multipolygon_roundtrip: for every layout but XYM and any number of positions, decoding the arrays the encoder writes "
              "yields exactly SetCoords of the original coordinates in the original layout (given each number reads back, checked per number by the run); "
              "C07_xym_comes_back_xyz, C07_empty_default_layout state the format's carve-outs. The run compares Go with the model on geometry / Feature / FeatureCollection "
              "round trips and on damaged documents, requires an independent reader to see the same type, nesting and numbers in the emitted JSON, and requires id, bbox, "
              "properties and (null) geometry to survive.",
-        note=NOTE_COMMON + "encoding/json's scanner/encoder are trusted; MultiPolygon round trip and the struct-field matching are validated by the correspondence only.",
+        note=NOTE_COMMON + "encoding/json's scanner/encoder are trusted; the struct-field matching of encoding/json is validated by the correspondence only.",
     ),
     "C08": dict(
         technique="Lean 4 theorems over any linear order (fold of min/max is the glb/lub; Overlaps = interval arithmetic) + differential correspondence with a semantic X/Y/Z/M oracle",
